@@ -782,6 +782,8 @@ fn population_strategy(t: Tier) -> BoxedStrategy<Scenario> {
             w_convert: 3,
             max_consumers: 2,
             fork: 1,
+            // many population changes in a row (an epoch opens while a consumer sleeps)
+            w_burst: 1,
             ..TrafficParams::default()
         },
             t,
